@@ -424,9 +424,11 @@ pub fn apply_step(script: &Script, log: &mut MultiRecordLog, step: &Step) -> (Va
             let result = if payloads.len() == 1 && batch[0].seed % 2 == 1 {
                 log.append_record(&script.queues[*q], *pos, &payloads[0][..])
             } else if (payloads.len() + pos.map(|position| position as usize).unwrap_or(0)) % 2 == 0 {
-                // (the batch comes from an iterator that cannot tell its length up front - a filter -
-                // half of the time: an empty batch is then only known to be empty once it was consumed)
-                log.append_records(&script.queues[*q], *pos, payloads.iter().filter(|_| true).map(|payload| &payload[..]))
+                // (the batch comes from an iterator that cannot tell its length up front - `from_fn`,
+                // size_hint (0, None) - half of the time: an empty batch is then only known to be empty
+                // once it was consumed)
+                let mut source = payloads.iter();
+                log.append_records(&script.queues[*q], *pos, std::iter::from_fn(move || source.next()).map(|payload| &payload[..]))
             } else {
                 log.append_records(&script.queues[*q], *pos, payloads.iter().map(|payload| &payload[..]))
             };
